@@ -151,12 +151,45 @@ fn op_events(req: &Value) -> Value {
                 let mut j = json!({"kind": kind, "pos": pos_after});
                 if let Some(e) = start {
                     j["name"] = bytes_json(e.name().as_ref());
+                    // attributes as the default (checked) iterator yields them, up to and including the first error;
+                    // for a Duplicated error the unchecked iterator is consulted as well, so that the event model knows
+                    // what `.with_checks(false)` would have yielded (key of the duplicate and the attributes after it)
                     let mut attrs = vec![];
-                    for a in e.attributes() {
+                    let mut first_err: Option<usize> = None;
+                    for (i, a) in e.attributes().enumerate() {
                         match a {
                             Ok(a) => attrs.push(json!({"ok": true, "key": bytes_json(a.key.as_ref())})),
                             Err(x) => {
                                 attrs.push(json!({"ok": false, "err": format!("{}", x)}));
+                                first_err = Some(i);
+                                break;
+                            }
+                        }
+                    }
+                    if let Some(idx) = first_err {
+                        let mut seen: Vec<Vec<u8>> = vec![];
+                        for (i, a) in e.attributes().with_checks(false).enumerate() {
+                            match a {
+                                Ok(a) => {
+                                    let k = a.key.as_ref().to_vec();
+                                    let dup = seen.contains(&k);
+                                    if i == idx && dup {
+                                        attrs[idx]["dup_key"] = bytes_json(&k);
+                                    } else if i > idx && attrs[idx].get("dup_key").is_some() {
+                                        if dup {
+                                            attrs.push(json!({"ok": false, "err": "duplicated attribute", "dup_key": bytes_json(&k), "after": true}));
+                                        } else {
+                                            attrs.push(json!({"ok": true, "key": bytes_json(&k), "after": true}));
+                                        }
+                                    }
+                                    seen.push(k);
+                                }
+                                Err(x) => {
+                                    if i > idx && attrs[idx].get("dup_key").is_some() {
+                                        attrs.push(json!({"ok": false, "err": format!("{}", x), "after": true}));
+                                    }
+                                    break;
+                                }
                             }
                         }
                     }
@@ -258,6 +291,15 @@ fn op_ops(req: &Value) -> Value {
                         if d as usize != r {
                             regs[d as usize] = Some(g.into_inner_t());
                         }
+                    }
+                }
+            }
+            "clonechild" => {
+                let d = op.get("d").and_then(|r| r.as_u64()).unwrap_or(0) as usize;
+                let got = regs[r].as_ref().and_then(|p| p.get_child(&name).map(|c| c.inner_t().clone()));
+                if d != r {
+                    if let Some(g) = got {
+                        regs[d] = Some(g);
                     }
                 }
             }
